@@ -27,7 +27,7 @@ const smtPrelude = `; govc prelude
 (define-fun sub ((s (Seq Int)) (a Int) (b Int)) (Seq Int) (seq.extract s a (- b a)))
 (define-fun splice ((s (Seq Int)) (off Int) (t (Seq Int))) (Seq Int)
   (seq.++ (seq.extract s 0 off) t (seq.extract s (+ off (seq.len t)) (- (seq.len s) (+ off (seq.len t))))))
-(define-fun validslice ((s Slice)) Bool (and (<= 0 (s_off s)) (<= 0 (s_len s)) (<= (s_len s) (s_cap s))))
+(define-fun validslice ((s Slice)) Bool (and (<= 0 (s_off s)) (<= 0 (s_len s)) (<= (s_len s) (s_cap s)) (<= (+ (s_off s) (s_cap s)) 9223372036854775807)))
 (define-fun validbytes ((h (Array Loc (Seq Int))) (s Slice)) Bool
   (and (validslice s) (<= (+ (s_off s) (s_cap s)) (seq.len (select h (s_arr s))))))
 (define-fun wrapu ((x Int) (m Int)) Int (ite (and (<= 0 x) (< x m)) x (mod x m)))
